@@ -32,6 +32,23 @@ theorem C17_yaml_call_site (E : Env) (path : Str) (u svc : SUnit) (h : fromKube 
 /-- `absFromUnit` is `absolute_from` against the directory of the unit's path -/
 theorem C17_absFromUnit_eq (p x : Str) : absFromUnit p x = Pth.absoluteFromUnit [] p x := rfl
 
+/-- call site, specifier paths (D23): a `Yaml=` that starts with a specifier is the last argument exactly as it was written -/
+theorem C17_yaml_specifier_kept (E : Env) (path : Str) (u svc : SUnit) (h : fromKube E path u = .ok svc)
+    (hs : Pth.startsWithSpecifier ((lookup u (s "Kube") (s "Yaml")).getD []) = true) :
+    ∃ cmd, HasExec svc "ExecStart" cmd ∧ cmd.getLast? = some ((lookup u (s "Kube") (s "Yaml")).getD []) := by
+  obtain ⟨cmd, hx, hl⟩ := C17_yaml_call_site E path u svc h
+  refine ⟨cmd, hx, ?_⟩
+  rw [hl, C17_absFromUnit_eq]
+  unfold Pth.absoluteFromUnit
+  rw [Pth.C17_specifier_kept _ _ _ hs]
+
+/-- … and every path the converters resolve with `absFromUnit` (ConfigMap=, EnvironmentFile=, the file a working directory is derived
+    from): a specifier path comes back as it was written, whatever the unit's own path is -/
+theorem C17_absFromUnit_specifier (p x : Str) (hs : Pth.startsWithSpecifier x = true) : absFromUnit p x = x := by
+  rw [C17_absFromUnit_eq]; unfold Pth.absoluteFromUnit; exact Pth.C17_specifier_kept _ _ _ hs
+
+example : absFromUnit (s "/q/u.kube") (s "%h/../x") = s "%h/../x" := by decide
+
 /-! ### a path or a URL (D21) -/
 
 /-- what counts as a URL begins with one of four prefixes — nothing that merely begins with "http" or holds "github.com/" somewhere -/
